@@ -1169,3 +1169,31 @@ func isErrPredicate(call *ssa.Call) bool {
 }
 
 var newPredCache = map[*ssa.Function]bool{}
+
+// osOpenFlags returns the values of os.O_WRONLY, O_RDWR, O_APPEND, O_CREATE, O_EXCL and
+// O_TRUNC for the configuration that is loaded (they differ between operating systems).
+func osOpenFlags() (oWronly, oRdwr, oAppend, oCreate, oExcl, oTrunc int64) {
+	// linux defaults, used only if the os package cannot be inspected
+	oWronly, oRdwr, oAppend, oCreate, oExcl, oTrunc = 0x1, 0x2, 0x400, 0x40, 0x80, 0x200
+	if curProg == nil {
+		return
+	}
+	for _, pk := range curProg.SSA.AllPackages() {
+		if pk.Pkg.Path() != "os" {
+			continue
+		}
+		get := func(name string, def int64) int64 {
+			if nc, ok := pk.Members[name].(*ssa.NamedConst); ok && nc.Value != nil {
+				return nc.Value.Int64()
+			}
+			return def
+		}
+		oWronly = get("O_WRONLY", oWronly)
+		oRdwr = get("O_RDWR", oRdwr)
+		oAppend = get("O_APPEND", oAppend)
+		oCreate = get("O_CREATE", oCreate)
+		oExcl = get("O_EXCL", oExcl)
+		oTrunc = get("O_TRUNC", oTrunc)
+	}
+	return
+}
